@@ -137,8 +137,10 @@ void seg_event(int kind, uint64_t a, uint64_t b, uint64_t c, uint64_t d) {
     }
 }
 
+uint64_t tool_blocks[8], tool_total_blocks;
 void sink(int kind, uint64_t a, uint64_t b, uint64_t c, uint64_t d) {
     n_events++;
+    if (kind == 40) { tool_total_blocks++; for (int i = 0; i < 8; i++) if ((a >> i) & 1) tool_blocks[i]++; return; }
     if (kind >= 1 && kind <= 10) { if (srm_enabled) srm_event(kind, a, b, c, d); }
     else if (kind >= 20 && kind <= 24) { if (seg_enabled) seg_event(kind, a, b, c, d); }
 }
@@ -148,6 +150,10 @@ void events_install() {
     const J &o = g_case["oracles"];
     seg_enabled = o.geti("seg_events", 1); srm_enabled = o.geti("srm_events", 1);
     sim_set_event_sink(sink);
+}
+void events_tool_usage(J &out) {
+    static const char *nm[8] = {"palette", "intrabc", "filter_intra", "cfl", "interintra", "obmc", "warped", "global_mv"};
+    out = J::obj(); for (int i = 0; i < 8; i++) out.set(nm[i], tool_blocks[i]); out.set("blocks", tool_total_blocks);
 }
 void events_summarize(J &out) {
     out = J::obj();
